@@ -41,7 +41,7 @@ func Verif_C42_quota() {
 	accepted := uint64(0)
 	acceptedSize := uint64(0)
 	first := uint64(0)
-	for i := 0; i < 3; i++ {
+	for i := 0; i < verifParam("msgs"); i++ {
 		sz := verifU64("size")
 		verifAssume(sz <= 1<<32)
 		if qfp.IncreaseLoad(pid, sz) == nil {
